@@ -462,7 +462,18 @@ def correspondence(ctx):
                 o["oom"] += 1
     model_bound_ok = all(m[0] <= 10 * m[1] + 2560 for i, m in model_meas.items()
                          if parse_args(cases[int(i) - 1]["args"], cases[int(i) - 1]["op"])["path"] == "t")
-    return dict(evaluations=len(cases), distinct_nontrivial=len(nontrivial), hist=hist,
+    # the Transport the deprecated constructor kafka.NewWriter builds from WriterConfig.Dialer must carry
+    # the dialer's SASL mechanism whatever its TLS setting (checks/writer_common.py newwriter_transport_cases)
+    hosted_eval = hosted_dn = 0
+    try:
+        import importlib
+        hw = importlib.import_module("checks.writer_common").newwriter_transport_cases(ctx)
+        failures += hw.get("failures", [])
+        hosted_eval, hosted_dn = hw.get("evaluations", 0), hw.get("distinct_nontrivial", 0)
+        hist.update(hw.get("hist", {}))
+    except (ModuleNotFoundError, AttributeError):
+        pass
+    return dict(evaluations=len(cases) + hosted_eval, distinct_nontrivial=len(nontrivial) + hosted_dn, hist=hist,
                 rule="EXHAUSTIVE product (tag 'product'): {Dialer.DialContext then ReadPartitions, Transport.RoundTrip(metadata)} x {PLAIN, SCRAM-SHA-256, SCRAM-SHA-512} "
                      "x {handshake v0 (raw bytes), v1 (framed)} x {right credentials, wrong password, unknown user} x {no fault, or a fault at each step "
                      "(ApiVersions, SaslHandshake, each authentication message) of each kind expressible at that step: error 33, error 58, frame cut off + close, "
